@@ -2227,7 +2227,15 @@ func opcodeCheckMultiSig(op *ParsedOpcode, t *thread) error {
 			if err := t.checkSignatureEncoding(signature); err != nil {
 				return err
 			}
+		}
 
+		// The public key of every pairing that is tried has to satisfy the
+		// encoding rules, whether or not the signature turns out to be usable.
+		if err := t.checkPubKeyEncoding(pubKey); err != nil {
+			return err
+		}
+
+		if !sigInfo.parsed {
 			// Parse the signature.
 			var err error
 			if t.hasAny(scriptflag.VerifyStrictEncoding, scriptflag.VerifyDERSignatures) {
@@ -2250,10 +2258,6 @@ func opcodeCheckMultiSig(op *ParsedOpcode, t *thread) error {
 
 			// Use the already parsed signature.
 			parsedSig = sigInfo.parsedSignature
-		}
-
-		if err := t.checkPubKeyEncoding(pubKey); err != nil {
-			return err
 		}
 
 		// Parse the pubkey.
